@@ -25,6 +25,9 @@ type c10Req struct {
 	Set     []string // Set-Cookie strings the backend will emit
 	Gap     time.Duration
 	Burst   bool
+	// DelayMs makes the backend answer late; MustHave is a cookie the backend must see
+	DelayMs  int
+	MustHave string
 }
 
 // worldC10: session tracking against an independent cookie jar per modelled session.
@@ -179,6 +182,26 @@ func worldC10(w *World) {
 					}
 				}
 			}
+			if mh := r.Header.Get("X-Must-Have"); mh != "" {
+				found := false
+				for _, g := range got {
+					if g == mh {
+						found = true
+					}
+				}
+				if !found {
+					w.Violation("jar", "a cookie set by a response that arrived after its session had been pushed out of the cache was lost although the session was used again at once | browser %d: want %q in %q", b, mh, got)
+				}
+				w.Probe("late_response_after_eviction")
+			}
+			if d := r.Header.Get("X-Delay-Ms"); d != "" {
+				var ms int
+				fmt.Sscanf(d, "%d", &ms)
+				mu.Unlock()
+				time.Sleep(time.Duration(ms) * time.Millisecond)
+				mu.Lock()
+				br = browsers[b]
+			}
 			// apply this response's cookies to the reference
 			sets := r.Header.Values("X-Set")
 			hdr := http.Header{}
@@ -211,6 +234,12 @@ func worldC10(w *World) {
 		}
 		if r.Burst {
 			req.Header.Set("X-Burst", "1")
+		}
+		if r.DelayMs > 0 {
+			req.Header.Set("X-Delay-Ms", fmt.Sprint(r.DelayMs))
+		}
+		if r.MustHave != "" {
+			req.Header.Set("X-Must-Have", r.MustHave)
 		}
 		mu.Lock()
 		sess := br.sess
@@ -289,6 +318,22 @@ func worldC10(w *World) {
 		// after the burst: the twin session holds both cookies set concurrently
 		if !smallLRU {
 			do(cl, c10Req{Browser: twin, Host: hosts[0], Path: "/a"})
+		} else {
+			// a response that arrives after its session was pushed out of the cache:
+			// browser 0 waits for a slow backend while every other session is used,
+			// then uses its session again at once
+			var lw sync.WaitGroup
+			lw.Add(1)
+			go func() {
+				defer lw.Done()
+				do(w.Client(), c10Req{Browser: 0, Host: hosts[0], Path: "/", Set: []string{"late=b0-late"}, DelayMs: 5000, Burst: true})
+			}()
+			time.Sleep(time.Second)
+			for b := 1; b < nB; b++ {
+				do(cl, c10Req{Browser: b, Host: hosts[0], Path: "/", Burst: true})
+			}
+			lw.Wait()
+			do(cl, c10Req{Browser: 0, Host: hosts[0], Path: "/", MustHave: "late=b0-late", Burst: true})
 		}
 		w.K.Stop()
 	})
